@@ -1,11 +1,13 @@
 """C08: direct requirements get their best candidate whenever that is possible."""
 import vlib
-from props import solverstream as ss, tracecheck as tc
+from props import solverstream as ss, tracecheck as tc, antie
 
-THEOREMS = ["C08_oracle_sound", "C08_explicit_first", "C08_trace_explicit"]
+THEOREMS = ["C08_oracle_sound", "C08_explicit_first", "C08_trace_explicit", "C08_decide_legal", "C08_decide_classified"]
 CHECKER = ("coqc Props/C08.v + Print Assumptions; harness solve_cases: (a) hook logs -> extracted check_sat_log (rules D1 "
            "and D2 enforced on every decision; theorem C08_trace_explicit), (b) whenever extracted o_explicit_first = "
-           "Some fs the returned solution must contain fs")
+           "Some fs the returned solution must contain fs, (c) hook logs -> extracted check_decides: every call of Solver::decide must "
+           "propose the candidate and clause the decide model proposes (activity scores in IEEE-754 binary32 via Flocq), with the "
+           "hypotheses of C08_decide_legal evaluated at every call")
 
 
 def run(res, tier, seed, replay):
@@ -27,7 +29,13 @@ def run(res, tier, seed, replay):
         recs += r2
     ref = ss.oracle_ref(recs)
     tc.annotate(recs)
+    antie.annotate_decides(recs)
     applicable = 0
+    for r in recs:
+        if not antie.ok_decides(r):
+            res.tie_break(f"decide correspondence no longer checks for a run in {r['stream']}: a call of Solver::decide proposed a "
+                          f"different candidate / clause than the model (Cdcl/Decide.v), or a hypothesis of C08_decide_legal fails: "
+                          f"{r['decides']}", dict(tc.trace_replay(r), decides=r["decides"]))
     for r in recs:
         key = r["key"]
         fs = ref[key]["first"]
@@ -66,6 +74,8 @@ def run(res, tier, seed, replay):
                 res.violation(r["key"], f"first-ranked root candidates {fs} are jointly installable but the solution {sol} lacks {missing} "
                               f"(found by the search burst) in {r['stream']}", ss.replay_obj(r))
         res.extra["search_burst_cases"] = len(burst)
+    dd = [r["decides"] for r in recs if "decides" in r and "n" in r["decides"]]
+    res.extra.update({"runs_replayed_through_decide_model": len(dd), "decide_calls_compared": sum(x["n"] for x in dd)})
     res.rule = ("hard problems whose root requirements are single version sets; applicable when the Coq-verified reference "
                 "finds a valid selection containing every root requirement's first-ranked candidate; non-trivial = "
                 "applicable and not conflict-free (greedy_okb rejects), i.e. some lower-level choice must deviate")
